@@ -80,6 +80,26 @@ def judge(res: Result, case: Dict[str, Any], vals: List[Any], typ, k: int, get_t
                 if TT2 is None or any(not O.member(v, TT2) for v in vals) or O.struct(TT2) != ref[0]:
                     res.violate(Violation(ID, "nonmember", f"traces-same-arguments:{label2}:{arm}", dict(case, order=list(order)), f"calls with one argument type and different results: merged {label2} type is {O.show(TT2) if TT2 is not None else None}, the direct merge is {O.show(ref[1])}"))
                     return
+            # the same calls collected the way the stub pipeline collects them - as a SET of traces per function (what
+            # StubIndexBuilder.log and build_module_stubs_from_traces keep): calls that differ only in what they yielded,
+            # or only in what they returned, are different observations and none may be absorbed by another
+            if order == tuple(range(n)) and k == 2:
+                from monkeytype.stubs import StubIndexBuilder
+
+                for label3, mk in (("yield", lambda t: CallTrace(S.genfunc, {"n": int}, O.NoneType, t)), ("return", lambda t: CallTrace(S.genfunc, {"n": int}, t, None)), ("arg", lambda t: CallTrace(S.genfunc, {"n": t}, O.NoneType, int))):
+                    builder = StubIndexBuilder(".*", k)
+                    for i in order:
+                        builder.log(mk(types[i]))
+                    res.transitions += 1
+                    try:
+                        a3, r3, y3 = shrink_traced_types(builder.index[S.genfunc], k)
+                    except Exception as e:  # noqa: BLE001
+                        res.violate(Violation(ID, "exception", f"shrink_traced_types:{arm}", dict(case, order=list(order)), f"shrink_traced_types over the indexed set raised {e!r}"))
+                        return
+                    TT3 = {"yield": y3, "return": r3, "arg": a3.get("n")}[label3]
+                    if TT3 is None or any(not O.member(v, TT3) for v in vals):
+                        res.violate(Violation(ID, "nonmember", f"traces-indexed-as-a-set:{label3}:{arm}", dict(case, order=list(order)), f"calls differing only in the {label3} type, collected by StubIndexBuilder: merged {label3} type is {O.show(TT3) if TT3 is not None else None}: not every value of {case['values']} is a member"))
+                        return
             # the yield type as the tracer accumulates it: one call that yields the values one after the other
             one_call = CallTrace(S.genfunc, {"n": types[order[0]]}, None, None)
             for i in order:
